@@ -33,6 +33,9 @@ pub enum Kind {
     NewerOwnVersion,
     NewerForeignVersion,
     MoveIntoRoom,
+    /// the victim holds the row in the room with the rich definition; the new version places it in the
+    /// second room, which is the room being pulled
+    MoveOutOfRoom,
     TombstoneOwn,
     TombstoneForeign,
     NewPWithEdge,
@@ -40,12 +43,13 @@ pub enum Kind {
     EdgeTombstoneOwn,
     EdgeTombstoneForeign,
 }
-const KINDS: [Kind; 11] = [
+const KINDS: [Kind; 12] = [
     Kind::NewP,
     Kind::NewQ,
     Kind::NewerOwnVersion,
     Kind::NewerForeignVersion,
     Kind::MoveIntoRoom,
+    Kind::MoveOutOfRoom,
     Kind::TombstoneOwn,
     Kind::TombstoneForeign,
     Kind::NewPWithEdge,
@@ -358,6 +362,7 @@ pub async fn run_case(w: &World, c: &Case, out: &mut Outcome, verbose: bool) -> 
         EdgeGone(Uid, String, Uid, i64),
     }
     let probe: Probe;
+    let mut pulled = room;
     match c.kind {
         Kind::NewP | Kind::NewQ => {
             let n = signed_node(&entity_short, room, author, d, d, body.clone(), None);
@@ -384,6 +389,19 @@ pub async fn run_case(w: &World, c: &Case, out: &mut Outcome, verbose: bool) -> 
             mark.push((entity_short.clone(), d));
             victim_nodes.push(old);
             sender_nodes.push(n);
+            right_needed = vec![(false, entity_name, Right::Own), (true, entity_name, Right::Own)];
+        }
+        Kind::MoveOutOfRoom => {
+            // the victim holds the row in `room` (same author); the new version places it in r2, and r2 is pulled
+            // the stored version dates from a time the author could write (when the new one is later than that)
+            let od = if d > date_of(DateK::Valid) { date_of(DateK::Valid) - 1000 } else { d - 1000 };
+            let old = signed_node(&u.p_short, room, author, od - 1000, od, pj("old"), None);
+            let n = signed_node(&entity_short, w.r2, author, old.cdate, d, body.clone(), Some(old.id));
+            probe = Probe::NodeVersion(n.id, n.mdate, n._signature.clone());
+            mark.push((entity_short.clone(), d));
+            victim_nodes.push(old);
+            sender_nodes.push(n);
+            pulled = w.r2;
             right_needed = vec![(false, entity_name, Right::Own), (true, entity_name, Right::Own)];
         }
         Kind::TombstoneOwn | Kind::TombstoneForeign => {
@@ -431,7 +449,7 @@ pub async fn run_case(w: &World, c: &Case, out: &mut Outcome, verbose: bool) -> 
         }
     }
     // integrity variants on the forged node (the last node pushed for node kinds)
-    if matches!(c.kind, Kind::NewP | Kind::NewQ | Kind::NewerOwnVersion | Kind::NewerForeignVersion | Kind::MoveIntoRoom) {
+    if matches!(c.kind, Kind::NewP | Kind::NewQ | Kind::NewerOwnVersion | Kind::NewerForeignVersion | Kind::MoveIntoRoom | Kind::MoveOutOfRoom) {
         let n = sender_nodes.last_mut().unwrap();
         match c.variant {
             Variant::TamperedJson => {
@@ -474,7 +492,7 @@ pub async fn run_case(w: &World, c: &Case, out: &mut Outcome, verbose: bool) -> 
         by_entity.entry(e.clone()).or_default().push(*dd);
     }
     for (e, ds) in &by_entity {
-        mark_days(sender, &room, e, ds).await?;
+        mark_days(sender, &pulled, e, ds).await?;
     }
     out.transitions += 3;
 
@@ -502,7 +520,7 @@ pub async fn run_case(w: &World, c: &Case, out: &mut Outcome, verbose: bool) -> 
 
     set_clock(tick(16));
     let before_fp = fingerprint(victim).await?;
-    let st = pull(victim, sender, room, PullOpts { cut_after: None, allowed: Some(vec![room]) }).await;
+    let st = pull(victim, sender, pulled, PullOpts { cut_after: None, allowed: Some(vec![pulled]) }).await;
     out.transitions += st.answers as u64;
     out.evaluations += 1;
     let after_fp = fingerprint(victim).await?;
@@ -686,8 +704,8 @@ pub fn run(args: &Args) -> i32 {
     let meta = CheckMeta {
         prop: "C02",
         level: "model_checking",
-        rule: "bounded-exhaustive product kind(11) x author role(5) x date(4) of forged items, plus integrity/JSON/entity variants(10) on node kinds and two-row batches with an honest neighbour; each case = fresh room built by real mutations, forged rows written unchecked into the sender's database, daily log computed by the real pass, victim pulls with the real routine; states = distinct (kind, role, date, variant, verdict); non-trivial = distinct (kind, verdict, oracle reason)".into(),
-        bounds: json!({"cases": cs.len(), "kinds": 11, "roles": 5, "dates": 4, "variants": 11}),
+        rule: "bounded-exhaustive product kind(12) x author role(5) x date(4) of forged items, plus integrity/JSON/entity variants(10) on node kinds and two-row batches with an honest neighbour; each case = fresh room built by real mutations, forged rows written unchecked into the sender's database, daily log computed by the real pass, victim pulls with the real routine; states = distinct (kind, role, date, variant, verdict); non-trivial = distinct (kind, verdict, oracle reason)".into(),
+        bounds: json!({"cases": cs.len(), "kinds": 12, "roles": 5, "dates": 4, "variants": 11}),
         assumptions: vec![
             "rights oracle RO over the room's accepted definition events".into(),
             "a lie a database cannot express (node listed under a room it is not stored in, answer of the wrong type) is not injected in this tier".into(),
